@@ -73,6 +73,11 @@ CHECKS = {
          "Each of 27 fault kinds is placed as a single-line tag in 13 containers after prefixes built from 20 kinds of multi-line constructs; the error must start with 'line N:' for the N the generator counted, and for k in {1,2,7,100} the same template preceded by k lines (empty or text) must give the same error with every line-start 'line M:' increased by exactly k.",
          "Trusted: the generator's newline count; the regular expression that locates line prefixes.",
          "DESIGN.md §5 C15"),
+ "C18": ("exploration",
+         "runtime metamorphic monitor: generated programs kept as token lists are re-laid out (separators, line comments, comment tags, tag merging/splitting) and every layout's rendering by the real engine is compared with the canonical layout's",
+         "Programs covering every construct are printed canonically (one statement per tag) and in 30/60 random re-layouts that vary only what the property calls insignificant; output, or the error text modulo 'line N:', must be identical. No reference model is involved: the relation is between two runs of the real engine.",
+         "Trusted: the printer inserts mandatory whitespace exactly where the property's '-'/'.' exception and word tokens require it and never splits '} else {'.",
+         "DESIGN.md §5 C18"),
 }
 NOT_YET = "check not built yet in this round (see DESIGN.md §5 for the planned monitor)"
 
